@@ -646,7 +646,13 @@ func (r *runner) report(results []*caseResult, wall time.Duration) int {
 		"violations":  nViol,
 	}
 	if opt.Replay == "" {
-		if err := writeJSONAtomic(filepath.Join(opt.Root, "evidence", ch.ID+".json"), ev); err != nil {
+		// Evidence under evidence/ always describes /repo itself. A run against another checkout
+		// (VERIF_REPO: a scratch worktree with a mutant or a candidate fix) writes to evidence/alt/.
+		evPath := filepath.Join(opt.Root, "evidence", ch.ID+".json")
+		if repo != "/repo" {
+			evPath = filepath.Join(opt.Root, "evidence", "alt", ch.ID+".json")
+		}
+		if err := writeJSONAtomic(evPath, ev); err != nil {
 			fmt.Println("cannot write evidence:", err)
 			if exit == 0 {
 				exit = 2
